@@ -86,12 +86,13 @@ Proof.
 Qed.
 
 (** * buildPendList *)
-Lemma scan_not_fatal : forall p now timeout l, scan p now timeout l <> Fatal.
+Lemma scan_not_fatal : forall nv p now timeout l, scan nv p now timeout l <> Fatal.
 Proof.
   induction l as [|pd l IH]; simpl; [discriminate|].
   pose proof (build_not_fatal p pd) as H.
   destruct (build p pd) as [[[pd' b] e]| |]; [|discriminate|congruence].
-  destruct (scan p now timeout l) as [[[k t] e']| |]; [|discriminate|congruence].
+  destruct (nv && posted e); [discriminate|].
+  destruct (scan nv p now timeout l) as [[[k t] e']| |]; [|discriminate|congruence].
   destruct b; [discriminate|]. destruct (timeout <=? _); discriminate.
 Qed.
 
@@ -99,17 +100,18 @@ Qed.
 Definition shape_pred (Q : pend -> Prop) : Prop :=
   forall a b, pd_sh a = pd_sh b -> length (pd_txs a) = length (pd_txs b) -> Q b -> Q a.
 
-Lemma scan_keeps : forall (Q : pend -> Prop) p now timeout l keep tmo e,
+Lemma scan_keeps : forall (Q : pend -> Prop) nv p now timeout l keep tmo e,
   shape_pred Q ->
   Forall (fun pd => nil_in_range pd /\ Q pd) l ->
-  scan p now timeout l = Ok (keep, tmo, e) ->
+  scan nv p now timeout l = Ok (keep, tmo, e) ->
   Forall (fun pd => nil_in_range pd /\ Q pd) keep.
 Proof.
-  intros Q p now timeout l. induction l as [|pd l IH]; intros keep tmo e SQ F H; simpl in H.
+  intros Q nv p now timeout l. induction l as [|pd l IH]; intros keep tmo e SQ F H; simpl in H.
   - inversion H; subst. constructor.
   - inversion F as [|x y [R HQ] F']; subst.
     destruct (build p pd) as [[[pd' b] e0]| |] eqn:Eb; try discriminate.
-    destruct (scan p now timeout l) as [[[k t] e']| |] eqn:Es; try discriminate.
+    destruct (nv && posted e0); [discriminate|].
+    destruct (scan nv p now timeout l) as [[[k t] e']| |] eqn:Es; try discriminate.
     specialize (IH k t e' SQ F' eq_refl).
     apply build_shape in Eb as [S1 [S2 S3]].
     destruct b.
@@ -118,23 +120,27 @@ Proof.
       constructor; [|exact IH]. split; [apply S3; reflexivity|]. eapply SQ; eauto.
 Qed.
 
-Lemma scan_panic_group : forall p now timeout l w,
-  Forall nil_in_range l -> scan p now timeout l = Panic w -> w = W_GROUP.
+(** the two panics an iteration of the pending loop can end in *)
+Lemma scan_panic_kind : forall nv p now timeout l w,
+  Forall nil_in_range l -> scan nv p now timeout l = Panic w ->
+  w = W_GROUP \/ (nv = true /\ w = W_NILVAL).
 Proof.
-  intros p now timeout l. induction l as [|pd l IH]; intros w F H; simpl in H; [discriminate|].
+  intros nv p now timeout l. induction l as [|pd l IH]; intros w F H; simpl in H; [discriminate|].
   inversion F as [|x y R F']; subst.
   destruct (build p pd) as [[[pd' b] e0]| |] eqn:Eb.
-  - destruct (scan p now timeout l) as [[[k t] e']| |] eqn:Es.
-    + destruct b; [discriminate|]. destruct (timeout <=? _); discriminate.
-    + inversion H; subst. eapply IH; eauto.
-    + discriminate.
-  - inversion H; subst. eapply build_panic_group; eauto.
+  - destruct (nv && posted e0) eqn:En.
+    + inversion H; subst. right. apply andb_true_iff in En as [En _]. auto.
+    + destruct (scan nv p now timeout l) as [[[k t] e']| |] eqn:Es.
+      * destruct b; [discriminate|]. destruct (timeout <=? _); discriminate.
+      * inversion H; subst. eapply IH; eauto.
+      * discriminate.
+  - inversion H; subst. left. eapply build_panic_group; eauto.
   - discriminate.
 Qed.
 
 Lemma scan_fits_ok : forall p now timeout l,
   Forall (fun pd => nil_in_range pd /\ pd_fits p pd) l ->
-  exists keep tmo e, scan p now timeout l = Ok (keep, tmo, e).
+  exists keep tmo e, scan false p now timeout l = Ok (keep, tmo, e).
 Proof.
   intros p now timeout l. induction l as [|pd l IH]; intros F; simpl; [eauto|].
   inversion F as [|x y [R Fit] F']; subst.
